@@ -54,100 +54,161 @@ theorem cross_piece (p0 p1 p2 : Pt K) (t u : K) :
       = 2 * (u * (1 - u)) * (t * t * t) * s2nom p0 p1 p2 := by
   simp only [s2nom, quadraticBezierPos, Point.PerpDot, Point.Sub, Point.Mul, Point.Add]; ring
 
-/-- chord length: B(t) − p0 = t·((2−t)·D + t·W); with D·W ≥ 0 and 0 ≤ t ≤ 1 it is at least t·|D| -/
-theorem chord_sq_ge (p0 p1 p2 : Pt K) (t : K) (ht0 : 0 ≤ t) (ht1 : t ≤ 1)
-    (hturn : 0 ≤ Point.Dot (Point.Sub p1 p0) (Point.Sub p2 p1)) :
-    t * t * Point.Dot (Point.Sub p1 p0) (Point.Sub p1 p0)
+/-- Cauchy–Schwarz in the plane -/
+theorem cauchy2 (a b c d : K) : (a * c + b * d) ^ 2 ≤ (a * a + b * b) * (c * c + d * d) := by
+  nlinarith [sq_nonneg (a * d - b * c)]
+
+/-- `turnDot` = (p1−p0)·(p2−p1): negative iff the control polygon turns by more than 90° -/
+def turnDot (p0 p1 p2 : Pt K) : K := Point.Dot (Point.Sub p1 p0) (Point.Sub p2 p1)
+def dd (p0 p1 : Pt K) : K := Point.Dot (Point.Sub p1 p0) (Point.Sub p1 p0)
+
+theorem dd_nonneg (p0 p1 : Pt K) : 0 ≤ dd p0 p1 := by
+  simp only [dd, Point.Dot]; exact add_nonneg (mul_self_nonneg _) (mul_self_nonneg _)
+
+/-- The step cap of the repaired `flattenQuadraticBezier`: `t ≤ D·D/(D·D − turn)` when `turn < 0`
+gives the cap hypothesis `t·(D·D − turn) ≤ D·D`, and that cap is below 1, so the loop is never left
+(`t ≥ 1`) while the polygon still turns by more than 90°. -/
+theorem cap_gives_hcap (p0 p1 p2 : Pt K) (t : K) (hturn : turnDot p0 p1 p2 < 0)
+    (ht : t ≤ dd p0 p1 / (dd p0 p1 - turnDot p0 p1 p2)) :
+    t * (dd p0 p1 - turnDot p0 p1 p2) ≤ dd p0 p1 := by
+  have hpos : 0 < dd p0 p1 - turnDot p0 p1 p2 := by linarith [dd_nonneg p0 p1]
+  have := mul_le_mul_of_nonneg_right ht (le_of_lt hpos)
+  rwa [div_mul_cancel₀ _ (ne_of_gt hpos)] at this
+
+theorem cap_lt_one (p0 p1 p2 : Pt K) (hturn : turnDot p0 p1 p2 < 0) :
+    dd p0 p1 / (dd p0 p1 - turnDot p0 p1 p2) < 1 := by
+  have hpos : 0 < dd p0 p1 - turnDot p0 p1 p2 := by linarith [dd_nonneg p0 p1]
+  rw [div_lt_one hpos]; linarith
+
+/-- without a turn beyond 90° every `t ≤ 1` satisfies the cap hypothesis -/
+theorem no_turn_gives_hcap (p0 p1 p2 : Pt K) (t : K) (ht0 : 0 ≤ t) (ht1 : t ≤ 1) (hturn : 0 ≤ turnDot p0 p1 p2) :
+    t * (dd p0 p1 - turnDot p0 p1 p2) ≤ dd p0 p1 := by
+  have := dd_nonneg p0 p1
+  nlinarith [mul_nonneg ht0 hturn, mul_nonneg (sub_nonneg.mpr ht1) this]
+
+/-- (B(t) − p0)·D = t·(2·D·D − t·(D·D − turn)) -/
+theorem chord_dot_tangent (p0 p1 p2 : Pt K) (t : K) :
+    Point.Dot (Point.Sub (quadraticBezierPos p0 p1 p2 t) p0) (Point.Sub p1 p0)
+      = t * (2 * dd p0 p1 - t * (dd p0 p1 - turnDot p0 p1 p2)) := by
+  simp only [dd, turnDot, quadraticBezierPos, Point.Dot, Point.Sub, Point.Mul, Point.Add]; ring
+
+/-- chord length: under the cap hypothesis the chord of the piece [0,t] is at least t·|D| long -/
+theorem chord_sq_ge (p0 p1 p2 : Pt K) (t : K) (ht0 : 0 ≤ t)
+    (hcap : t * (dd p0 p1 - turnDot p0 p1 p2) ≤ dd p0 p1) :
+    t * t * dd p0 p1
       ≤ Point.Dot (Point.Sub (quadraticBezierPos p0 p1 p2 t) p0) (Point.Sub (quadraticBezierPos p0 p1 p2 t) p0) := by
-  simp only [quadraticBezierPos, Point.Dot, Point.Sub, Point.Mul, Point.Add] at *
-  have key : ((1 - 2 * t + t * t) * p0.x + (2 * t - 2 * t * t) * p1.x + t * t * p2.x - p0.x) *
-        ((1 - 2 * t + t * t) * p0.x + (2 * t - 2 * t * t) * p1.x + t * t * p2.x - p0.x) +
-      ((1 - 2 * t + t * t) * p0.y + (2 * t - 2 * t * t) * p1.y + t * t * p2.y - p0.y) *
-        ((1 - 2 * t + t * t) * p0.y + (2 * t - 2 * t * t) * p1.y + t * t * p2.y - p0.y)
-      - t * t * ((p1.x - p0.x) * (p1.x - p0.x) + (p1.y - p0.y) * (p1.y - p0.y))
-      = t * t * ((1 - t) * (3 - t) * ((p1.x - p0.x) * (p1.x - p0.x) + (p1.y - p0.y) * (p1.y - p0.y))
-          + 2 * t * (2 - t) * ((p1.x - p0.x) * (p2.x - p1.x) + (p1.y - p0.y) * (p2.y - p1.y))
-          + t * t * ((p2.x - p1.x) * (p2.x - p1.x) + (p2.y - p1.y) * (p2.y - p1.y))) := by ring
-  have h1 : 0 ≤ (1 - t) * (3 - t) * ((p1.x - p0.x) * (p1.x - p0.x) + (p1.y - p0.y) * (p1.y - p0.y)) :=
-    mul_nonneg (mul_nonneg (by linarith) (by linarith)) (add_nonneg (mul_self_nonneg _) (mul_self_nonneg _))
-  have h2 : 0 ≤ 2 * t * (2 - t) * ((p1.x - p0.x) * (p2.x - p1.x) + (p1.y - p0.y) * (p2.y - p1.y)) :=
-    mul_nonneg (mul_nonneg (by linarith) (by linarith)) hturn
-  have h3 : 0 ≤ t * t * ((p2.x - p1.x) * (p2.x - p1.x) + (p2.y - p1.y) * (p2.y - p1.y)) :=
-    mul_nonneg (mul_self_nonneg _) (add_nonneg (mul_self_nonneg _) (mul_self_nonneg _))
-  have h4 : 0 ≤ t * t * ((1 - t) * (3 - t) * ((p1.x - p0.x) * (p1.x - p0.x) + (p1.y - p0.y) * (p1.y - p0.y))
-          + 2 * t * (2 - t) * ((p1.x - p0.x) * (p2.x - p1.x) + (p1.y - p0.y) * (p2.y - p1.y))
-          + t * t * ((p2.x - p1.x) * (p2.x - p1.x) + (p2.y - p1.y) * (p2.y - p1.y))) :=
-    mul_nonneg (mul_self_nonneg _) (by linarith)
-  linarith
+  have hA := dd_nonneg p0 p1
+  have hdot := chord_dot_tangent p0 p1 p2 t
+  set C := Point.Sub (quadraticBezierPos p0 p1 p2 t) p0 with hC
+  set D := Point.Sub p1 p0 with hD
+  have hcs : (Point.Dot C D) ^ 2 ≤ Point.Dot C C * dd p0 p1 := by
+    simp only [dd, Point.Dot, ← hD]; exact cauchy2 C.x C.y D.x D.y
+  have hge : t * dd p0 p1 ≤ Point.Dot C D := by
+    rw [hdot]
+    have : dd p0 p1 ≤ 2 * dd p0 p1 - t * (dd p0 p1 - turnDot p0 p1 p2) := by linarith
+    exact mul_le_mul_of_nonneg_left this ht0
+  have h0 : 0 ≤ t * dd p0 p1 := mul_nonneg ht0 hA
+  have hsq : (t * dd p0 p1) ^ 2 ≤ Point.Dot C C * dd p0 p1 := le_trans (pow_le_pow_left₀ h0 hge 2) hcs
+  rcases eq_or_lt_of_le hA with h | h
+  · -- D = 0
+    rw [← h]; simp only [mul_zero]
+    simp only [Point.Dot]; exact add_nonneg (mul_self_nonneg _) (mul_self_nonneg _)
+  · have : t * t * dd p0 p1 * dd p0 p1 ≤ Point.Dot C C * dd p0 p1 := by
+      calc t * t * dd p0 p1 * dd p0 p1 = (t * dd p0 p1) ^ 2 := by ring
+        _ ≤ _ := hsq
+    exact le_of_mul_le_mul_right this h
 
 /-- Distance of the curve point B(u·t) from the chord line of the piece [0,t], in squared form:
-cross² ≤ (2·tol)²·|chord|², when t obeys the code's rule t²·|s2nom| = 4·tol·|D| and the control
-polygon turns by at most 90° (D·W ≥ 0). -/
+cross² ≤ (2·tol)²·|chord|², when t does not exceed the code's flatness step (t²·|s2nom| ≤ 4·tol·|D|)
+nor the 90° cap (t·(D·D − turn) ≤ D·D). -/
 theorem piece_two_tol (p0 p1 p2 : Pt K) (tol d t u : K)
-    (hd2 : d * d = Point.Dot (Point.Sub p1 p0) (Point.Sub p1 p0))
-    (ht0 : 0 ≤ t) (ht1 : t ≤ 1) (hu0 : 0 ≤ u) (hu1 : u ≤ 1)
-    (hstep : t * t * |s2nom p0 p1 p2| = 4 * tol * d)
-    (hturn : 0 ≤ Point.Dot (Point.Sub p1 p0) (Point.Sub p2 p1)) :
+    (hd2 : d * d = dd p0 p1)
+    (ht0 : 0 ≤ t) (hu0 : 0 ≤ u) (hu1 : u ≤ 1)
+    (hstep : t * t * |s2nom p0 p1 p2| ≤ 4 * tol * d)
+    (hcap : t * (dd p0 p1 - turnDot p0 p1 p2) ≤ dd p0 p1) :
     (Point.PerpDot (Point.Sub (quadraticBezierPos p0 p1 p2 (u * t)) p0) (Point.Sub (quadraticBezierPos p0 p1 p2 t) p0)) ^ 2
       ≤ (2 * tol) ^ 2 * Point.Dot (Point.Sub (quadraticBezierPos p0 p1 p2 t) p0) (Point.Sub (quadraticBezierPos p0 p1 p2 t) p0) := by
   rw [cross_piece]
-  have hch := chord_sq_ge p0 p1 p2 t ht0 ht1 hturn
+  have hch := chord_sq_ge p0 p1 p2 t ht0 hcap
   have hu := unit_prod_sq_le u hu0 hu1
   set S := s2nom p0 p1 p2 with hS
-  set DD := Point.Dot (Point.Sub p1 p0) (Point.Sub p1 p0) with hDD
+  set DD := dd p0 p1 with hDD
   set CC := Point.Dot (Point.Sub (quadraticBezierPos p0 p1 p2 t) p0) (Point.Sub (quadraticBezierPos p0 p1 p2 t) p0) with hCC
-  have hsq : (t * t * |S|) ^ 2 = (t * t) ^ 2 * S ^ 2 := by rw [mul_pow, sq_abs]
-  have e1 : (2 * (u * (1 - u)) * (t * t * t) * S) ^ 2 = 4 * (u * (1 - u)) ^ 2 * (t * t) * ((t * t) ^ 2 * S ^ 2) := by ring
-  rw [e1, ← hsq, hstep]
+  have hnn : 0 ≤ t * t * |S| := mul_nonneg (mul_self_nonneg t) (abs_nonneg S)
+  have hsq : (t * t) ^ 2 * S ^ 2 ≤ (4 * tol * d) ^ 2 := by
+    have := pow_le_pow_left₀ hnn hstep 2
+    rwa [mul_pow, sq_abs] at this
   have e2 : (4 * tol * d) ^ 2 = 16 * tol ^ 2 * DD := by rw [← hd2]; ring
-  rw [e2]
+  rw [e2] at hsq
   have hT : 0 ≤ 4 * tol ^ 2 := by positivity
-  have hDDnn : 0 ≤ t * t * DD := le_trans (by
-    rw [hDD]; simp only [Point.Dot]; exact mul_nonneg (mul_self_nonneg _) (add_nonneg (mul_self_nonneg _) (mul_self_nonneg _))) (le_refl _)
-  calc 4 * (u * (1 - u)) ^ 2 * (t * t) * (16 * tol ^ 2 * DD)
-      = (16 * (u * (1 - u)) ^ 2) * (4 * tol ^ 2 * (t * t * DD)) := by ring
+  have hDDnn : 0 ≤ t * t * DD := mul_nonneg (mul_self_nonneg t) (dd_nonneg p0 p1)
+  have hq : 0 ≤ 4 * (u * (1 - u)) ^ 2 * (t * t) := by positivity
+  calc (2 * (u * (1 - u)) * (t * t * t) * S) ^ 2
+      = 4 * (u * (1 - u)) ^ 2 * (t * t) * ((t * t) ^ 2 * S ^ 2) := by ring
+    _ ≤ 4 * (u * (1 - u)) ^ 2 * (t * t) * (16 * tol ^ 2 * DD) := mul_le_mul_of_nonneg_left hsq hq
+    _ = (16 * (u * (1 - u)) ^ 2) * (4 * tol ^ 2 * (t * t * DD)) := by ring
     _ ≤ 1 * (4 * tol ^ 2 * (t * t * DD)) := mul_le_mul_of_nonneg_right hu (mul_nonneg hT hDDnn)
-    _ ≤ (2 * tol) ^ 2 * CC := by
-        have := mul_le_mul_of_nonneg_left hch hT
-        calc 1 * (4 * tol ^ 2 * (t * t * DD)) = 4 * tol ^ 2 * (t * t * DD) := by ring
-          _ ≤ 4 * tol ^ 2 * CC := this
-          _ = (2 * tol) ^ 2 * CC := by ring
+    _ = 4 * tol ^ 2 * (t * t * DD) := by ring
+    _ ≤ 4 * tol ^ 2 * CC := mul_le_mul_of_nonneg_left hch hT
+    _ = (2 * tol) ^ 2 * CC := by ring
 
-/-- Last piece (the loop is left because `t ≥ 1`, i.e. |s2nom| ≤ 4·tol·|D|): the whole remaining
-curve against its chord p0→p2. -/
+/-- Last piece (the loop is left because `t ≥ 1`: |s2nom| ≤ 4·tol·|D|, and the cap is inactive, i.e. the
+polygon turns by at most 90°): the whole remaining curve against its chord p0→p2. -/
 theorem last_piece_two_tol (p0 p1 p2 : Pt K) (tol d u : K)
-    (hd2 : d * d = Point.Dot (Point.Sub p1 p0) (Point.Sub p1 p0))
+    (hd2 : d * d = dd p0 p1)
     (hu0 : 0 ≤ u) (hu1 : u ≤ 1)
     (hstop : |s2nom p0 p1 p2| ≤ 4 * tol * d)
-    (hturn : 0 ≤ Point.Dot (Point.Sub p1 p0) (Point.Sub p2 p1)) :
+    (hturn : 0 ≤ turnDot p0 p1 p2) :
     (Point.PerpDot (Point.Sub (quadraticBezierPos p0 p1 p2 u) p0) (Point.Sub p2 p0)) ^ 2
       ≤ (2 * tol) ^ 2 * Point.Dot (Point.Sub p2 p0) (Point.Sub p2 p0) := by
-  have h1 := cross_piece p0 p1 p2 1 u
-  rw [quad_pos_one, mul_one] at h1
-  rw [h1]
-  have hch := chord_sq_ge p0 p1 p2 1 (by norm_num) (le_refl _) hturn
-  rw [quad_pos_one] at hch
-  have hu := unit_prod_sq_le u hu0 hu1
-  set S := s2nom p0 p1 p2 with hS
-  set DD := Point.Dot (Point.Sub p1 p0) (Point.Sub p1 p0) with hDD
-  set CC := Point.Dot (Point.Sub p2 p0) (Point.Sub p2 p0) with hCC
-  have hS2 : S ^ 2 ≤ (4 * tol * d) ^ 2 := by
-    rw [← sq_abs S]
-    exact pow_le_pow_left₀ (abs_nonneg S) hstop 2
-  have e2 : (4 * tol * d) ^ 2 = 16 * tol ^ 2 * DD := by rw [← hd2]; ring
-  rw [e2] at hS2
-  have hT : 0 ≤ 4 * tol ^ 2 := by positivity
-  have hDDnn : 0 ≤ DD := by
-    rw [hDD]; simp only [Point.Dot]; exact add_nonneg (mul_self_nonneg _) (mul_self_nonneg _)
-  have hq : 0 ≤ (u * (1 - u)) ^ 2 := sq_nonneg _
-  calc (2 * (u * (1 - u)) * (1 * 1 * 1) * S) ^ 2 = 4 * (u * (1 - u)) ^ 2 * S ^ 2 := by ring
-    _ ≤ 4 * (u * (1 - u)) ^ 2 * (16 * tol ^ 2 * DD) := mul_le_mul_of_nonneg_left hS2 (by positivity)
-    _ = (16 * (u * (1 - u)) ^ 2) * (4 * tol ^ 2 * DD) := by ring
-    _ ≤ 1 * (4 * tol ^ 2 * DD) := mul_le_mul_of_nonneg_right hu (mul_nonneg hT hDDnn)
-    _ ≤ (2 * tol) ^ 2 * CC := by
-        have h := mul_le_mul_of_nonneg_left hch hT
-        calc 1 * (4 * tol ^ 2 * DD) = 4 * tol ^ 2 * (1 * 1 * DD) := by ring
-          _ ≤ 4 * tol ^ 2 * CC := h
-          _ = (2 * tol) ^ 2 * CC := by ring
+  have h := piece_two_tol p0 p1 p2 tol d 1 u hd2 (by norm_num) hu0 hu1 (by simpa using hstop)
+    (no_turn_gives_hcap p0 p1 p2 1 (by norm_num) (le_refl _) hturn)
+  rwa [quad_pos_one, mul_one] at h
+
+/-- scalar core of the cone argument: A = D·D, g = D·G, H = G·G with G = W − D; v(τ) = D + τ·G -/
+theorem cone_core (A g H t x y : K) (hA : 0 ≤ A) (hH : 0 ≤ H) (hcs : g * g ≤ A * H)
+    (hcap : 0 ≤ A + t * g) (hx0 : 0 ≤ x) (hxt : x ≤ t) (hy0 : 0 ≤ y) (hyt : y ≤ t) :
+    0 ≤ A + (x + y) * g + x * y * H := by
+  rcases le_or_gt 0 g with hg | hg
+  · have := mul_nonneg (add_nonneg hx0 hy0) hg
+    have := mul_nonneg (mul_nonneg hx0 hy0) hH
+    linarith
+  · have hxg : 0 ≤ A + x * g := by nlinarith
+    have hyg : 0 ≤ A + y * g := by nlinarith
+    rcases eq_or_lt_of_le hA with h0 | hpos
+    · -- A = 0 forces g = 0
+      have : g * g ≤ 0 := by rw [← h0] at hcs; simpa using hcs
+      nlinarith [mul_self_nonneg g]
+    · have hxy : 0 ≤ x * y := mul_nonneg hx0 hy0
+      have key : 0 ≤ (A + (x + y) * g + x * y * H) * A := by
+        have e : (A + (x + y) * g + x * y * H) * A = (A + x * g) * (A + y * g) + x * y * (A * H - g * g) := by ring
+        rw [e]
+        exact add_nonneg (mul_nonneg hxg hyg) (mul_nonneg hxy (by linarith))
+      exact nonneg_of_mul_nonneg_left key hpos
+
+/-- Along the capped piece the curve advances monotonically in the direction of its chord, so the
+nearest point of the chord LINE lies on the chord SEGMENT: B'(x)·(B(t) − p0) ≥ 0 for 0 ≤ x ≤ t. -/
+theorem monotone_along_chord (p0 p1 p2 : Pt K) (t x : K) (hx0 : 0 ≤ x) (hxt : x ≤ t)
+    (hcap : t * (dd p0 p1 - turnDot p0 p1 p2) ≤ dd p0 p1) :
+    0 ≤ Point.Dot (quadraticBezierDeriv p0 p1 p2 x) (Point.Sub (quadraticBezierPos p0 p1 p2 t) p0) := by
+  have ht0 : 0 ≤ t := le_trans hx0 hxt
+  set Dx := p1.x - p0.x with hDx
+  set Dy := p1.y - p0.y with hDy
+  set Gx := (p2.x - p1.x) - (p1.x - p0.x) with hGx
+  set Gy := (p2.y - p1.y) - (p1.y - p0.y) with hGy
+  have hcore := cone_core (Dx * Dx + Dy * Dy) (Dx * Gx + Dy * Gy) (Gx * Gx + Gy * Gy) t x (t / 2)
+    (add_nonneg (mul_self_nonneg _) (mul_self_nonneg _)) (add_nonneg (mul_self_nonneg _) (mul_self_nonneg _))
+    (by have := cauchy2 Dx Dy Gx Gy; nlinarith [this])
+    (by
+      have : t * (dd p0 p1 - turnDot p0 p1 p2) ≤ dd p0 p1 := hcap
+      simp only [dd, turnDot, Point.Dot, Point.Sub] at this
+      rw [hDx, hDy, hGx, hGy]; nlinarith [this])
+    hx0 hxt (by positivity) (by linarith)
+  have e : Point.Dot (quadraticBezierDeriv p0 p1 p2 x) (Point.Sub (quadraticBezierPos p0 p1 p2 t) p0)
+      = 4 * t * ((Dx * Dx + Dy * Dy) + (x + t / 2) * (Dx * Gx + Dy * Gy) + x * (t / 2) * (Gx * Gx + Gy * Gy)) := by
+    simp only [quadraticBezierDeriv, quadraticBezierPos, Point.Dot, Point.Sub, Point.Mul, Point.Add, hDx, hDy, hGx, hGy]
+    ring
+  rw [e]
+  exact mul_nonneg (by positivity) hcore
 
 end C03L
